@@ -30,7 +30,7 @@ from optilint.model import dotted
 from optilint.core import Incomplete
 from optilint.expr import Algebra, NotPolynomial
 from optilint.tensoreval import Dual, Arr, EvalError, Raised, _A, rat_is_zero
-from .common import Unifier, src, same, calls_in, const_value, expand
+from .common import Unifier, sem_same, normalize, canon, return_normal_form, src, same, calls_in, const_value, expand
 from . import materials as mt
 
 LEVEL = "other"
@@ -48,17 +48,17 @@ QR = "optimism.QuadratureRule"
 def run(ctx):
     for m in (FS, IP, QR, "optimism.Mesh", "optimism.Surface", "optimism.Mechanics", "optimism.TensorMath"):
         ctx.need_module(m)
-    a_dispatch(ctx)
-    b_axisymmetric(ctx)
-    c_affine(ctx)
-    e_axis_typing(ctx)
-    f_tables(ctx)
-    g_edges(ctx)
+    ctx.guard(a_dispatch, ctx)
+    ctx.guard(b_axisymmetric, ctx)
+    ctx.guard(c_affine, ctx)
+    ctx.guard(e_axis_typing, ctx)
+    ctx.guard(f_tables, ctx)
+    ctx.guard(g_edges, ctx)
     from . import C16, C13
-    C16.o1_normals(_Ren(ctx, "d/"))
-    C13.d3_elevation(_Ren(ctx, "c/"))
+    ctx.guard(C16.o1_normals, _Ren(ctx, "d/"))
+    ctx.guard(C13.d3_elevation, _Ren(ctx, "c/"))
     from . import parentelem
-    parentelem.run(ctx, "c/T6-parent-element-tables")
+    ctx.guard(parentelem.run, ctx, "c/T6-parent-element-tables")
     ctx.trust("integral of x^a y^b over the unit triangle = a! b! / (a+b+2)!; n-point Gauss-Legendre is exact to degree 2n-1")
     ctx.assume("literal table entries carry ~15 significant digits: moments are compared with tolerance 2e-14")
 
@@ -156,7 +156,7 @@ def b_axisymmetric(ctx):
     e = expand(cfg, r[0], r[0].ast.value) if r else None
     cart = f"compute_element_volumes({', '.join(ps)})"
     want = f"2*np.pi*({ps[3]} @ {ps[0]}.take({ps[1]}, 0)[:, 0])*{cart}"
-    ok = e is not None and same(e, want)
+    ok = e is not None and sem_same(e, want, sc)
     ctx.decide(rule, ok, sc, r[0].ast if r else None, construct="vols_axi=2*pi*r(xi_q)*vols",
                detail="2*pi*(shapes @ X_nodes[:,0])*compute_element_volumes(same arguments)",
                bad_detail=f"axisymmetric volumes are `{src(e) if e is not None else '?'}`; expected 2*pi times the radius interpolated at each quadrature point "
@@ -186,47 +186,58 @@ def c_affine(ctx):
     mg = ctx.need(f"{FS}:map_element_shape_grads")
     ev = ctx.need(f"{FS}:compute_element_volumes")
     mod = ctx.need_module(FS)
+    # the kernels are compared in normal form: return value expanded to the parameters with small helpers inlined
+    A = Algebra()
+    import copy
+    norm = {}
     for sc in (mg, ev):
         cfg = cfg_of(sc)
-        vs = [n for n in cfg.nodes if n.kind == "stmt" and isinstance(n.ast, ast.Assign) and "vertexNodes" in src(n.ast.value)]
-        ok = len(vs) == 1 and same(expand(cfg, vs[0], vs[0].ast.value), f"{sc.params()[0]}.take({sc.params()[1]}, 0)[{sc.params()[2]}.vertexNodes]")
-        ctx.decide(rule, ok, sc, vs[0].ast if vs else None, construct=f"{sc.name}:vertices-of-the-parent-element",
-                   detail="v = coords.take(nodes,0)[parentElement.vertexNodes]", bad_detail=f"{sc.name} does not take the vertex nodes of the given parent element")
-    # det J == volume jacobian on generic points
-    A = Algebra()
-    try:
-        cfg = cfg_of(mg)
-        jd = [n for n in cfg.nodes if n.kind == "stmt" and isinstance(n.ast, ast.Assign) and (dotted(getattr(n.ast.value, "func", None)) or "").endswith("column_stack")]
-        cols = jd[0].ast.value.args[0].elts
-        vname = {}
-        for sc_ in (mg, ev):
-            c_ = cfg_of(sc_)
-            vs_ = [n for n in c_.nodes if n.kind == "stmt" and isinstance(n.ast, ast.Assign) and "vertexNodes" in src(n.ast.value)]
-            vname[sc_.name] = vs_[0].ast.targets[0].id
+        r_ = cfg.returns()
+        norm[sc.name] = return_normal_form(sc)
+    vert = {sc.name: canon(f"{sc.params()[0]}.take({sc.params()[1]}, 0)[{sc.params()[2]}.vertexNodes]") for sc in (mg, ev)}
 
-        def pt(e, comp, vn=None):
-            # v[k] -> symbols vkx, vky
-            class Rp(ast.NodeTransformer):
-                def visit_Subscript(self, s):
-                    if isinstance(s.value, ast.Name) and s.value.id == vn:
-                        return ast.Name(id=f"v{const_value(s.slice)}{comp}", ctx=ast.Load())
-                    return self.generic_visit(s)
-            import copy
-            return A.lower(Rp().visit(copy.deepcopy(e)))
-        vm = vname[mg.name]
+    def pieces(sc, fname):
+        """argument list of the first call of `fname` in the normal form, and whether every vertex access goes through the parent element's vertex list"""
+        e_ = norm[sc.name]
+        if e_ is None:
+            return None, False
+        calls_ = [c for c in ast.walk(e_) if isinstance(c, ast.Call) and (dotted(c.func) or "").split(".")[-1] == fname]
+        if not calls_:
+            return None, False
+        c = calls_[0]
+        args_ = list(c.args[0].elts) if (len(c.args) == 1 and isinstance(c.args[0], ast.Tuple)) else list(c.args)
+        subs_ = [x for a_ in args_ for x in ast.walk(a_) if isinstance(x, ast.Subscript) and const_value(x.slice) is not None]
+        okv = bool(subs_) and all(canon(x.value) == vert[sc.name] for x in subs_)
+        return args_, okv
+
+    def pt(e, comp, vtxt):
+        class Rp(ast.NodeTransformer):
+            def visit_Subscript(self, s_):
+                if const_value(s_.slice) is not None and canon(s_.value) == vtxt:
+                    return ast.Name(id=f"v{const_value(s_.slice)}{comp}", ctx=ast.Load())
+                return self.generic_visit(s_)
+        return A.lower(Rp().visit(copy.deepcopy(e)))
+    cols, okv_m = pieces(mg, "column_stack")
+    cr, okv_e = pieces(ev, "cross")
+    for sc, okv in ((mg, okv_m), (ev, okv_e)):
+        ctx.decide(rule, okv, sc, None, construct=f"{sc.name}:vertices-of-the-parent-element",
+                   detail="v = coords.take(nodes,0)[parentElement.vertexNodes]", bad_detail=f"{sc.name} does not take the vertex nodes of the given parent element")
+    try:
+        if not cols or not cr or len(cols) != 2 or len(cr) != 2:
+            raise IndexError("Jacobian columns / cross product not found in the normal form")
+        vm, ve = vert[mg.name], vert[ev.name]
         J = [[pt(cols[0], "x", vm), pt(cols[1], "x", vm)], [pt(cols[0], "y", vm), pt(cols[1], "y", vm)]]
         detJ = A.norm(J[0][0] * J[1][1] - J[0][1] * J[1][0])
-        cfg2 = cfg_of(ev)
-        jn = [n for n in cfg2.nodes if n.kind == "stmt" and isinstance(n.ast, ast.Assign) and (dotted(getattr(n.ast.value, "func", None)) or "").endswith("cross")]
-        a_, b_ = jn[0].ast.value.args
-        ve = vname[ev.name]
+        a_, b_ = cr
         jac = A.norm(pt(a_, "x", ve) * pt(b_, "y", ve) - pt(a_, "y", ve) * pt(b_, "x", ve))
         ok = A.equal(detJ, jac)
-        ctx.decide(rule, ok, ev, jn[0].ast, construct="det(J)==volume-jacobian", detail=f"det of the gradient map's Jacobian equals cross(...) = {jac!r}",
+        ctx.decide(rule, ok, ev, None, construct="det(J)==volume-jacobian", detail=f"det of the gradient map's Jacobian equals cross(...) = {jac!r}",
                    bad_detail=f"det J of map_element_shape_grads is {detJ!r} but compute_element_volumes uses {jac!r}: gradients and volumes belong to different affine maps")
-        r = cfg2.returns()
-        ok = len(r) == 1 and same(r[0].ast.value, f"{src(jn[0].ast.targets[0])}*{ev.params()[4]}")
-        ctx.decide(rule, ok, ev, r[0].ast if r else None, construct="vols=jacobian*weights", detail="jac*weights", bad_detail=f"volumes are `{src(r[0].ast.value) if r else '?'}`")
+        e_ev = norm[ev.name]
+        ok = isinstance(e_ev, ast.BinOp) and isinstance(e_ev.op, ast.Mult) and \
+            any(isinstance(x_, ast.Call) and (dotted(x_.func) or "").split(".")[-1] == "cross" and isinstance(y_, ast.Name) and y_.id == ev.params()[4]
+                for x_, y_ in ((e_ev.left, e_ev.right), (e_ev.right, e_ev.left)))
+        ctx.decide(rule, ok, ev, None, construct="vols=jacobian*weights", detail="jac*weights", bad_detail=f"volumes are `{src(e_ev)[:120]}`")
     except (NotPolynomial, IndexError, AttributeError) as ex:
         ctx.undecided(rule, mg, None, construct="det(J)==volume-jacobian", detail=str(ex))
     # integration restricted by the same block
@@ -261,31 +272,39 @@ def e_axis_typing(ctx):
     rule = "e/T9-axis-typing"
     mg = ctx.need(f"{FS}:map_element_shape_grads")
     # J = column_stack((dx/dxi0, dx/dxi1)) : [x, xi] ; shapeGradients per point dN : [node, xi]
-    lam = [n for n in ast.walk(mg.node) if isinstance(n, ast.Lambda)]
+    cfg_m = cfg_of(mg)
+    r_m = cfg_m.returns()
+    e_m = return_normal_form(mg)
+    lam = [n for n in ast.walk(e_m) if isinstance(n, ast.Lambda)] if e_m is not None else []
     ok = None
     shown = "?"
-    if len(lam) == 1:
-        body = lam[0].body
+    jcalls = [c for c in ast.walk(e_m) if isinstance(c, ast.Call) and (dotted(c.func) or "").split(".")[-1] == "column_stack"] if e_m is not None else []
+    if len(lam) == 1 and jcalls:
+        import copy
+        jtxt = canon(jcalls[0])
+
+        class _J(ast.NodeTransformer):
+            def visit_Call(self, c_):
+                if canon(c_) == jtxt:
+                    return ast.Name(id="J__", ctx=ast.Load())
+                return self.generic_visit(c_)
+        body = _J().visit(copy.deepcopy(lam[0].body))
         dn = lam[0].args.args[0].arg
         shown = src(body)
-        jn_ = [s_.targets[0].id for s_ in ast.walk(mg.node) if isinstance(s_, ast.Assign) and isinstance(s_.value, ast.Call)
-               and (dotted(s_.value.func) or "").endswith("column_stack") and isinstance(s_.targets[0], ast.Name)]
-        ty = _type_axes(body, {(jn_[0] if jn_ else "J"): ("x", "xi"), dn: ("node", "xi")})
+        ty = _type_axes(body, {"J__": ("x", "xi"), dn: ("node", "xi")})
         ok = True if ty == ("node", "x") else (False if ty is not None else None)
         shown += f" : {ty}"
-    ctx.decide(rule, ok, mg, lam[0] if lam else None, construct="physical-gradients=[node,x]", detail=shown,
+    ctx.decide(rule, ok, mg, None, construct="physical-gradients=[node,x]", detail=shown,
                bad_detail=f"`{shown}`: with J : [x, xi] and reference gradients : [node, xi] the mapped gradients must have axes [node, x] "
                           f"(both axes have length 2, so NumPy cannot catch the mix-up)")
-    # J's columns are derivatives w.r.t. xi_k: differences of vertices
-    jd = [s for s in ast.walk(mg.node) if isinstance(s, ast.Assign) and isinstance(s.value, ast.Call) and (dotted(s.value.func) or "").endswith("column_stack")]
-    ok = len(jd) == 1 and any(isinstance(n_, ast.Name) and n_.id == src(jd[0].targets[0]) for l_ in lam for n_ in ast.walk(l_.body))
-    ctx.decide(rule, ok, mg, jd[0] if jd else None, construct="J-columns-are-parametric-directions", detail="J = column_stack((dx/dxi0, dx/dxi1))",
+    ok = len(jcalls) >= 1 and len(lam) == 1 and any(canon(c_) == canon(jcalls[0]) for c_ in ast.walk(lam[0].body) if isinstance(c_, ast.Call))
+    ctx.decide(rule, ok, mg, None, construct="J-columns-are-parametric-directions", detail="J = column_stack((dx/dxi0, dx/dxi1))",
                bad_detail="J is not assembled with the parametric directions as columns")
     sg = ctx.need(f"{FS}:compute_quadrature_point_field_gradient")
     r = sg.returns()
     cfg = cfg_of(sg)
     e = expand(cfg, cfg.returns()[0], r[0]) if r else None
-    ok = e is not None and same(e, f"np.tensordot({sg.params()[0]}, {sg.params()[1]}, axes=[0, 0])")
+    ok = e is not None and sem_same(e, f"np.tensordot({sg.params()[0]}, {sg.params()[1]}, axes=[0, 0])", sg)
     ctx.decide(rule, ok, sg, r[0] if r else None, construct="field-gradient-contracts-the-node-axis", detail="tensordot(u[node,:], dN[node,x], axes=[0,0])",
                bad_detail=f"field gradient is `{src(e) if e is not None else '?'}`; it must contract nodal values with shape gradients over the node axis")
 
@@ -483,12 +502,11 @@ def g_edges(ctx):
     ctx.decide(rule, ok, io, r2[0] if r2 else None, construct="edge-interpolation-with-1d-parent-element", detail="shapes of parentElement1d at the given points, contracted with the edge's nodal values",
                bad_detail="interpolate_nodal_field_on_edge does not use the 1D parent element's shape functions at the given points")
     gn = ctx.need(f"{FS}:get_nodal_values_on_edge")
-    u3 = Unifier(gn)
     g_ = gn.params()
-    subs_ = [x for x in ast.walk(gn.node) if isinstance(x, ast.Subscript)]
-    ok = any(u3.match(x, f"{g_[0]}.mesh.parentElement.faceNodes[{g_[2]}[1], :]") for x in subs_)
-    ok = ok and len(u3.assigns(f"{g_[0]}.mesh.parentElement.faceNodes[{g_[2]}[1], :]", target="edgeNodes")) == 1
-    ok = ok and any(u3.match(x, f"{g_[0]}.mesh.conns[{g_[2]}[0], edgeNodes]") for x in subs_)
+    gcfg = cfg_of(gn)
+    gr = gcfg.returns()
+    ok = len(gr) == 1 and sem_same(expand(gcfg, gr[0], gr[0].ast.value),
+                                   f"{g_[1]}[{g_[0]}.mesh.conns[{g_[2]}[0], {g_[0]}.mesh.parentElement.faceNodes[{g_[2]}[1], :]]]", gn)
     ctx.decide(rule, ok, gn, None, construct="edge-nodes=conns[element, faceNodes[side]]", detail="edge = (element, local side)",
                bad_detail="get_nodal_values_on_edge does not gather conns[edge[0], faceNodes[edge[1]]]")
     ies = ctx.need(f"{FS}:integrate_function_on_edges")
